@@ -97,6 +97,20 @@ def check_world(world: Dict[str, Any]) -> List[str]:
                 want = [r['id'] for r in st['bases']]
                 if got != want:
                     problems.append(f'bases of M{st["id"]}: truth {want} python {got}')
+        # class namespaces: members, imports and aliases in class bodies
+        for cid, cls in cls_by_id.items():
+            for name, b in truth['cns'].get(str(cid), {}).items():
+                if name not in cls.__dict__:
+                    if truth['defs'].get(str(b[1]), {}).get('kind') == 'ivar' if b[0] == 'd' else False:
+                        continue      # set in __init__: not a class attribute
+                    problems.append(f'class M{cid}: {name!r} not bound in the class body')
+                    continue
+                val = cls.__dict__[name]
+                if b[0] == 'd':
+                    if _marker(val) != b[1] and not truth['defs'][str(b[1])].get('nodoc'):
+                        problems.append(f'class M{cid}.{name}: truth M{b[1]} python {_marker(val)}')
+                elif getattr(val, '__name__', None) != b[1]:
+                    problems.append(f'class M{cid}.{name}: truth module {b[1]} python {getattr(val, "__name__", val)!r}')
         for cid, cls in cls_by_id.items():
             want_mro = ref_mro(world, cid)
             got_mro = [_marker(c) for c in cls.__mro__ if c is not object and getattr(c, '__name__', '') != 'Generic']
